@@ -183,10 +183,22 @@ func (ans *answer) Return(e error) {
 		case <-ans.c.bgctx.Done():
 		default:
 			ans.c.tasks.Done() // added by handleCall
-			if err := ans.c.shutdown(err); err != nil {
-				ans.c.report(err)
-			}
-			// shutdown released c.mu
+			// Shut down from a separate goroutine: shutdown releases
+			// the connection's capabilities, and releasing the one
+			// this call was made on can wait for this call to return.
+			ans.c.mu.Unlock()
+			go func(c *Conn, abortErr error) {
+				c.mu.Lock()
+				select {
+				case <-c.bgctx.Done():
+					c.mu.Unlock()
+				default:
+					// shutdown unlocks c.mu.
+					if err := c.shutdown(abortErr); err != nil {
+						c.report(err)
+					}
+				}
+			}(ans.c, err)
 			rl.release()
 			ans.pcalls.Wait()
 			return
